@@ -188,6 +188,63 @@ def api_sub_routines(viol) -> int:
     return len(done)
 
 
+def read_protocol(viol) -> int:
+    """The read-counter protocol itself, on the REAL objects: after a behaviour is transformed (before the reset) every
+    shared node the transformer holds - source registers, non-inlined PureExec results, pure parameters of a
+    sub-routine body - is read k more times through its own `il_read()`; the k texts must be what the Lean protocol
+    model `readsOf` gives (first read raw, every later one DUP) - the hypothesis of Props/C12's read_protocol."""
+    from rzilcompiler.Transformer.Pures.Register import Register, RegisterAccessType
+    from rzilcompiler.Transformer.Pures.PureExec import PureExec
+    from rzilcompiler.Transformer.Pures.Parameter import Parameter
+    from rzilcompiler.Transformer.Hybrids.Hybrid import Hybrid
+    from rzilcompiler.Transformer.ValueType import VTGroup
+    c = rc.compiler(textcheck.FORMATS[0], fresh=True)
+    srcs = ["{ RdV = (RsV + RtV) * (RsV - RtV); ReV = ((int64_t)RssV) >> 3; PdV = (RsV < RtV) ? PuV : PvV; }",
+            "{ EA = RsV + siV; RdV = ((int32_t)mem_load_s32(EA)) + sextract64(RtV, 0, 8); CdV = CsV & MuV; }",
+            "{ RddV = (RssV ^ RttV) | ((uint64_t)NsN); RdV = HEX_REG_ALIAS_SP + P0 + R31; }"]
+    objs = []
+    proto_n = 0
+    for src in srcs:
+        tr = c.transformer
+        with rc.quiet():
+            tr.transform(c.parser.parse(src))
+        h = tr.il_ops_holder
+        for o in list(h.read_ops.values()) + list(h.exec_ops.values()):
+            if isinstance(o, Hybrid):
+                continue
+            if isinstance(o, Register):
+                if o.access in (RegisterAccessType.W, RegisterAccessType.PW) or o.isa_id == "x":
+                    continue      # destination-only and Rx registers are read afresh by design (no shared node)
+                objs.append(("Register", o))
+            elif isinstance(o, PureExec) and not getattr(o, "inlined", False):
+                objs.append((type(o).__name__, o))
+        # read them now, before the reset
+        reqs, got = [], []
+        for kind, o in objs:
+            o.reads = 0
+            k = 1 + (len(got) % 5)
+            texts = [o.il_read() for _ in range(k)]
+            got.append((kind, o.pure_var().replace(":", "_"), k, texts))
+        with rc.quiet():
+            tr.reset()
+        reps = Driver().run([sx(["reads", Q(n), k]) for _, n, k, _ in got]) if got else []
+        for (kind, n, k, texts), rep in zip(got, reps):
+            want = [x.s if isinstance(x, Q) else x for x in parse_sx(rep)[1:]]
+            if [t.replace(" ", "") for t in texts] != [w.replace(" ", "") for w in want]:
+                viol.append({"what": [f"{kind} {n}: {k} successive il_read() calls give {texts}, the read protocol gives {want}"], "scope": "protocol", "ident": n, "program": src})
+        proto_n += len(got)
+        objs = []
+    # pure parameters of a sub-routine body
+    p = Parameter("a", __import__("rzilcompiler.Transformer.ValueType", fromlist=["ValueType"]).ValueType(False, 32))
+    if p.value_type.group & VTGroup.PURE:
+        texts = [p.il_read() for _ in range(4)]
+        want = [x.s if isinstance(x, Q) else x for x in parse_sx(Driver().run([sx(["reads", Q("a"), 4])])[0])[1:]]
+        proto_n += 1
+        if texts != want:
+            viol.append({"what": [f"Parameter a: 4 successive il_read() calls give {texts}, the read protocol gives {want}"], "scope": "protocol", "ident": "a"})
+    return proto_n
+
+
 def run_prop(prop: str, tier: str, replay=None) -> int:
     res = Result(prop, tier)
     st = prepare(prop, translate=translate.run_all)
@@ -322,6 +379,9 @@ def run_prop(prop: str, tier: str, replay=None) -> int:
         distinct.add(("gen", it["src"]))
         if len(samples) < 5 and it["stream"] == "clean":
             samples.append({"program": it["src"], "stream": it["stream"], "carve_out_classes": sorted(feats)})
+    proto_checked = 0
+    if prop == "C12":
+        proto_checked = read_protocol(viol)
     # ---- C11: companion records of generated / directed behaviours, and sub-routines registered through the API
     api_subs = 0
     if prop == "C11":
@@ -348,7 +408,7 @@ def run_prop(prop: str, tier: str, replay=None) -> int:
         "exhaustive": tier == "thorough",
         "corpus": cstats,
         "generated": gstats,
-        "companion_records_checked": rec_checked, "api_sub_routines_checked": api_subs,
+        "companion_records_checked": rec_checked, "api_sub_routines_checked": api_subs, "read_protocol_objects": proto_checked,
         "known_finding_hits": known_hit,
         "violations_total": len(viol),
         "samples": samples,
